@@ -328,7 +328,7 @@ Section Later.
     all: cbv zeta; pose proof (J_frame _ _ (frame_ens c) H) as H1; pose proof (qwf_ens c Hwf) as Hwf1.
     all: destruct ((e_kind e =? 3) || negb (outer_opens (kc (ens c)) (e_state e))); [exact (J_frame _ _ (frame_rf (ens c) _ _ _ Hne) H1)|].
     all: destruct (wrong_epoch (kc (ens c)) e); [|apply J_here; assumption].
-    all: destruct (is_better (ens c) (e_epoch e) (e_ts e) (e_key e)); [|apply J_late; assumption].
+    all: destruct (is_commit_kind e && is_better (ens c) (e_epoch e) (e_ts e) (e_key e)); [|apply J_late; assumption].
     all: destruct (find_snap (e_epoch e) (queue (ens c))) as [s|] eqn:Es; [|exact (J_frame _ _ (frame_rf (ens c) _ _ _ Hne) H1)].
     - exact (J_frame _ _ (frame_rf (ens c) _ _ _ Hne) H1).
     - apply IH; [exact Hne| |apply qwf_rollback; assumption].
@@ -515,7 +515,7 @@ Proof.
        unfold commit_here; (destruct (negb (forallb _ (e_refs e))); [discriminate|]);
        (destruct (negb (e_auth e)); [discriminate|]); rewrite apply_commit_rk; discriminate.
   all: destruct (wrong_epoch (kc (ens c)) e); [|exact Hhere].
-  all: destruct (is_better (ens c) (e_epoch e) (e_ts e) (e_key e));
+  all: destruct (is_commit_kind e && is_better (ens c) (e_epoch e) (e_ts e) (e_key e));
        [|unfold late; destruct (dget (e_id e) (dedup (ens c))) as [d|]; [destruct (d_state d =? PS_COMMIT)|]; discriminate].
   all: destruct (find_snap (e_epoch e) (queue (ens c))) as [s|] eqn:Es; [|discriminate].
   - discriminate.
@@ -533,7 +533,7 @@ Proof.
   destruct (outer_opens (kc (ens c)) (e_state e)); cbn [negb]; [|right; right; left; exists (ens c), true, None; auto].
   destruct (wrong_epoch (kc (ens c)) e) eqn:Hw.
   - rewrite is_better_no_snap.
-    + unfold late. change (dedup (ens c)) with (dedup c). rewrite Hr. cbn [d_state].
+    + rewrite andb_false_r. unfold late. change (dedup (ens c)) with (dedup c). rewrite Hr. cbn [d_state].
       change (PS_PROCESSED =? PS_COMMIT) with false. cbv iota.
       right; right; left. exists (ens c), true, (Some (k_rec_epoch (kc c))). auto.
     + apply find_snap_above; [apply qwf_ens; exact Hwf|].
@@ -601,7 +601,7 @@ Proof.
        (split; [apply incl_nil_l|]); (split; [lia|]);
        apply snaps_trivially_ok; intros; apply incl_nil_l.
   all: destruct (wrong_epoch (kc (ens c)) e); [|exact Hhere].
-  all: destruct (is_better (ens c) (e_epoch e) (e_ts e) (e_key e));
+  all: destruct (is_commit_kind e && is_better (ens c) (e_epoch e) (e_ts e) (e_key e));
        [|unfold late; destruct (dget (e_id e) (dedup (ens c))) as [d|]; [destruct (d_state d =? PS_COMMIT)|]; discriminate].
   all: destruct (find_snap (e_epoch e) (queue (ens c))) as [s|] eqn:Es; [|discriminate].
   - discriminate.
@@ -619,7 +619,7 @@ Proof.
   destruct (outer_opens (kc (ens c)) (e_state e)); cbn [negb]; [|right; right; left; exists (ens c), true, None; auto].
   destruct (wrong_epoch (kc (ens c)) e) eqn:Hw.
   - rewrite is_better_no_snap.
-    + unfold late. change (dedup (ens c)) with (dedup c). rewrite Hr. cbn [d_state].
+    + rewrite andb_false_r. unfold late. change (dedup (ens c)) with (dedup c). rewrite Hr. cbn [d_state].
       change (PS_PROCESSED =? PS_COMMIT) with false. cbv iota.
       right; right; left. exists (ens c), true, (Some (k_rec_epoch (kc c))). auto.
     + apply find_snap_above; [apply qwf_ens; exact Hwf|].
@@ -696,7 +696,7 @@ Proof.
              destruct (dget (e_id e) (dedup c)) as [r|] eqn:Hr; [|discriminate];
              destruct (N.eqb_spec (d_state r) PS_COMMIT) as [E|_]; [intros _; exact (Hn r Hr E)|discriminate]).
   all: destruct (wrong_epoch (kc (ens c)) e) eqn:Hw.
-  1,3: destruct (is_better (ens c) (e_epoch e) (e_ts e) (e_key e)); [|intros Hrk; destruct (Hlate Hrk)].
+  1,3: destruct (is_commit_kind e && is_better (ens c) (e_epoch e) (e_ts e) (e_key e)); [|intros Hrk; destruct (Hlate Hrk)].
   1,2: destruct (find_snap (e_epoch e) (queue (ens c))) as [s|] eqn:Es; [|discriminate].
   1: discriminate.
   1: intros Hrk; apply (IH (rollback (ens c) (e_epoch e) s) e Hrk K0 Hme);
@@ -728,6 +728,7 @@ Proof.
     destruct (find_snap_In _ _ _ Hf) as [Hin Hep]. rewrite Forall_forall in Hq. destruct (Hq s Hin) as [_ HQ].
     assert (sn_epoch s < e_epoch e + 1) as L by lia.
     destruct (HQ L Hep) as [Z|[T K]]; [contradiction|]. rewrite T, K in Hlt. exfalso. exact (mip03_lt_irrefl _ Hlt). }
+  rewrite andb_false_r.
   unfold late. change (dedup (ens c)) with (dedup c). rewrite Hr. cbn [d_state].
   change (PS_COMMIT =? PS_COMMIT) with true. cbv iota. cbn [fst]. right; right; right. split; [reflexivity|exact Hact].
 Qed.
@@ -830,7 +831,7 @@ Proof.
   all: cbv zeta; assert (dedup_stamped (ens c)) as H1 by exact H.
   all: destruct ((e_kind e =? 3) || negb (outer_opens (kc (ens c)) (e_state e))); [apply DS_rf; exact H1|].
   all: destruct (wrong_epoch (kc (ens c)) e); [|apply DS_here; exact H1].
-  all: destruct (is_better (ens c) (e_epoch e) (e_ts e) (e_key e)); [|apply DS_late; exact H1].
+  all: destruct (is_commit_kind e && is_better (ens c) (e_epoch e) (e_ts e) (e_key e)); [|apply DS_late; exact H1].
   all: destruct (find_snap (e_epoch e) (queue (ens c))) as [s|] eqn:Es; [|apply DS_rf; exact H1].
   - apply DS_rf. exact H1.
   - apply IH. apply DS_rollback. exact H1.
@@ -913,20 +914,10 @@ Proof.
   - vm_compute. discriminate.
 Qed.
 
-(* ================================================================ witnesses of the three known finding classes *)
-(* a leave proposal stored pending, then a commit of its epoch with a LATER timestamp applied: the proposal offered again is
-   "better" than the applied commit, the client rolls back *)
-Definition lp_p : event := mkEvent 30 2 100 5 2 0 1 true 0 0 [] [] 0.
-Definition lp_A : event := cmt 10 200 5 2 0 1 true.
-
-Lemma late_proposal_refuted : exists i a r ops e,
-  let c := erun (init_client i a r) ops in
-  e_kind e = 2 /\ In (ODeliver e) ops /\ proj (fst (deliver c e)) <> proj c.
-Proof.
-  exists 1, false, 5, [ODeliver lp_p; ODeliver lp_A], lp_p. cbv zeta.
-  split; [reflexivity|]. split; [left; reflexivity|]. vm_compute. discriminate.
-Qed.
-
+(* ================================================================ witnesses of the known finding classes *)
+(* (the former witness `late_proposal_refuted` - a queued leave proposal offered again after a commit of its epoch with a
+   later timestamp rolled the client back - is gone: since the repair only commits are MIP-03 candidates.  The positive
+   statements that replace it are at the end of Mdk/EngineProofs5.v.) *)
 (* own commit A created and cleared, its echo acknowledged; own commit B created: the echo of A offered again merges B *)
 Definition oe_A : event := cmt 10 100 5 1 0 1 true.
 Definition oe_B : event := mkEvent 20 0 110 6 1 0 1 true 7 0 [] [] 0.
